@@ -44,6 +44,29 @@ def removed(run, d, bins, cases):
     import props.c11 as c11
     c11.removed_phase(run, d, bins, None)
     big_phase(run, bins)
+    conc_sp_phase(run, bins)
+
+
+def conc_sp_phase(run, bins):
+    """CONCURRENT shortest-path reasoning over one shared graph (harness family causalconcsp; the reasoning methods take &self): thread A
+    repeats the call on data for which every causaloid of the path is true, thread B repeats it (and single-cause calls on the inner
+    nodes) on data for which they are false. The verdict is the conjunction of the verdicts of the path's causaloids ON THE DATA OF
+    THAT CALL (theorem C10; purity: C12), whatever the other thread does. Stress: the schedule is the OS's."""
+    if run.violations: return
+    rng = run.rng
+    lines = [f"causalconcsp {rng.choice([3, 4, 6])} {400 if run.thorough else 150}"]
+    if run.thorough: lines.append(f"causalconcsp 9 400")
+    rc, outs, err = run_lines(bins["release"], lines, line_timeout=180)
+    n_ok = 0
+    for ln, o in zip(lines, outs + ["<no answer>"] * (len(lines) - len(outs))):
+        run.cov["evaluations"] += 1
+        if o.split() == ["1", "0", "0", "0"]:
+            n_ok += 1; continue
+        run.violation({"kind": "property-oracle-failed-on-implementation", "why": f"two threads reasoning over the shortest path 0 -> n-1 of one shared chain at the same time ({ln.split()[2]} 000 calls each): "
+                       f"A (all true): first verdict / differing verdicts, B (all false): first verdict / differing verdicts = {o}; a verdict is the conjunction over the path on the data of THAT call: expected 1 0 0 0",
+                       "harness_line": ln, "expected": "1 0 0 0", "got": o, "big": True, "rerun": "cd /verif && python3 bin/check.py C10 --replay <this file>"})
+        break
+    run.cov["concurrent_shortest_path_reasoning"] = {"runs": len(lines), "agree": n_ok}
 
 
 def main():
